@@ -55,6 +55,7 @@ type Path struct {
 	NAsserts     int
 	NAssertsTriv int
 	spawned      []*Job
+	allocOn      bool
 	facts        map[int]*Term // term id -> constant implied by the path condition
 	simpMemo     map[int]*Term
 }
